@@ -123,7 +123,7 @@ func genQ(g *vlib.G, large bool) {
 		{n: 5, large: true},
 		{n: 4, directed: true, large: true},
 		{n: 5, weighted: true, rotate: true, large: true},
-		{n: 4, directed: true, weighted: true, stride: vlib.Pick(g, 6, 1), offset: vlib.Pick(g, 1, 0), rotate: true, large: true},
+		{n: 4, directed: true, weighted: true, stride: vlib.Pick(g, 8, 1), offset: vlib.Pick(g, 1, 0), rotate: true, large: true},
 		{n: 5, weighted: true, self: 2, stride: vlib.Pick(g, 23, 3), offset: 2, large: true},
 		{n: 5, weighted: true, zeroOut: true, stride: vlib.Pick(g, 11, 1), offset: 4, rotate: true, large: true},
 		{n: 4, directed: true, weighted: true, zeroOut: true, stride: vlib.Pick(g, 37, 3), offset: 9, large: true},
@@ -1005,7 +1005,7 @@ func genLouvain(g *vlib.G, large bool) {
 		{graphSpace{n: 4, weighted: true, stride: vlib.Pick(g, 2, 1), rotate: !g.Thorough(), large: true}, 2, 0},
 		{graphSpace{n: 5, stride: vlib.Pick(g, 2, 1), offset: vlib.Pick(g, 1, 0), rotate: !g.Thorough(), large: true}, 2, 4000},
 		{graphSpace{n: 4, directed: true, stride: vlib.Pick(g, 3, 1), offset: vlib.Pick(g, 1, 0), rotate: true, large: true}, 2, 4000},
-		{graphSpace{n: 5, weighted: true, stride: vlib.Pick(g, 199, 7), offset: 8, large: true}, 2, 4000},
+		{graphSpace{n: 5, weighted: true, stride: vlib.Pick(g, 299, 7), offset: 8, large: true}, 2, 4000},
 		{graphSpace{n: 4, directed: true, weighted: true, stride: vlib.Pick(g, 997, 61), offset: 100, large: true}, 2, 4000},
 		{graphSpace{n: 5, weighted: true, zeroOut: true, stride: vlib.Pick(g, 499, 29), offset: 14, large: true}, 2, 4000},
 		{graphSpace{n: 4, directed: true, weighted: true, zeroOut: true, stride: vlib.Pick(g, 1999, 211), offset: 45, large: true}, 2, 4000},
@@ -1092,8 +1092,8 @@ func genLouvainMultiplex(g *vlib.G, large bool) {
 		{s: graphSpace{n: 2, directed: true}, L: 3, maxDev: 2},
 		// second phase
 		{s: graphSpace{n: 3, weighted: true}, L: 2, stride: vlib.Pick(g, 7, 1), offset: vlib.Pick(g, 1, 0), maxDev: 2, large: true},
-		{s: graphSpace{n: 4}, L: 2, stride: vlib.Pick(g, 7, 1), offset: vlib.Pick(g, 2, 0), maxDev: 2, maxRuns: 3000, large: true},
-		{s: graphSpace{n: 3, directed: true}, L: 2, stride: vlib.Pick(g, 4, 1), offset: vlib.Pick(g, 1, 0), maxDev: 2, maxRuns: 3000, large: true},
+		{s: graphSpace{n: 4}, L: 2, stride: vlib.Pick(g, 9, 1), offset: vlib.Pick(g, 2, 0), maxDev: 2, maxRuns: 3000, large: true},
+		{s: graphSpace{n: 3, directed: true}, L: 2, stride: vlib.Pick(g, 5, 1), offset: vlib.Pick(g, 1, 0), maxDev: 2, maxRuns: 3000, large: true},
 		{s: graphSpace{n: 3, directed: true, weighted: true}, L: 2, stride: vlib.Pick(g, 1009, 211), offset: 31, maxDev: 2, maxRuns: 3000, large: true},
 		{s: graphSpace{n: 4, weighted: true}, L: 2, stride: vlib.Pick(g, 3989, 499), offset: 77, maxDev: 2, maxRuns: 3000, large: true},
 		{s: graphSpace{n: 3, directed: true, weighted: true, alpha: alpha012}, L: 2, stride: vlib.Pick(g, 49999, 4999), offset: 123, maxDev: 2, maxRuns: 3000, large: true},
